@@ -702,6 +702,57 @@ func init() {
 			return out
 		}},
 
+		{name: "Value.RefineWith", need: "v", p0: isUnk, run: func(x *opctx) outcome {
+			// the callback keeps the builder it was given; the value RefineWith returned must not follow what is
+			// done to that builder afterwards
+			v := x.v[0]
+			ty := v.Type()
+			var kept *cty.RefinementBuilder
+			var v1 cty.Value
+			o := core.Guard(func() {
+				v1 = v.RefineWith(func(b *cty.RefinementBuilder) *cty.RefinementBuilder {
+					kept = b
+					if x.k&1 == 1 {
+						b = b.NotNull()
+					}
+					switch {
+					case ty == cty.String && x.k&2 != 0:
+						b = b.StringPrefixFull(stringsPool[int((x.k>>3)%uint64(len(stringsPool)))])
+					case ty.IsCollectionType() && x.k&2 != 0:
+						b = b.CollectionLengthLowerBound(int((x.k >> 3) % 3))
+					case ty == cty.Number && x.k&2 != 0:
+						b = b.NumberRangeLowerBound(cty.NumberIntVal(int64((x.k>>3)%5)-2), x.k&4 != 0)
+					}
+					return b
+				})
+			})
+			if o.Panicked || kept == nil {
+				return outcome{text: "refused;"}
+			}
+			x.unchanged("Value.RefineWith", "the builder kept by the RefineWith callback (further refinement calls)", []cty.Value{v, v1}, nil, func() {
+				core.Guard(func() {
+					kept.NotNull()
+					switch {
+					case ty == cty.Number:
+						kept.NumberRangeLowerBound(cty.NumberIntVal(3), true)
+						kept.NumberRangeUpperBound(cty.NumberIntVal(9), false)
+					case ty == cty.String:
+						kept.StringPrefixFull(v1.Range().StringPrefix() + "zz")
+					case ty.IsCollectionType():
+						kept.CollectionLengthLowerBound(v1.Range().LengthLowerBound() + 1)
+						kept.CollectionLengthUpperBound(v1.Range().LengthLowerBound() + 7)
+					}
+				})
+			})
+			var v2 cty.Value
+			core.Guard(func() { v2 = v.RefineNotNull() })
+			out := outcome{vals: []cty.Value{v1}}
+			if v2 != cty.NilVal {
+				out.vals = append(out.vals, v2)
+			}
+			return out
+		}},
+
 		// ---- traversal
 		{name: "cty.Walk", need: "v", run: func(x *opctx) outcome {
 			var o outcome
